@@ -8,7 +8,7 @@ import typing
 
 from .._backends.auto import AutoBackend
 from .._backends.base import SOCKET_OPTION, AsyncNetworkBackend, AsyncNetworkStream
-from .._exceptions import ConnectError, ConnectTimeout
+from .._exceptions import ConnectError, ConnectionNotAvailable, ConnectTimeout
 from .._models import Origin, Request, Response
 from .._ssl import default_ssl_context
 from .._synchronization import AsyncLock, AsyncShieldCancellation
@@ -75,6 +75,11 @@ class AsyncHTTPConnection(AsyncConnectionInterface):
         try:
             async with self._request_lock:
                 if self._connection is None:
+                    if self._connect_failed:
+                        # An earlier request's connection attempt failed or was
+                        # cancelled while we were waiting: the pool has already
+                        # discarded this connection, so don't bring it to life.
+                        raise ConnectionNotAvailable()
                     stream = await self._connect(request)
 
                     ssl_object = stream.get_extra_info("ssl_object")
